@@ -4,6 +4,8 @@ Monitor: the `.jdd` mapping read back after construction through both constructi
 callable is a counting harness wrapper (which k were asked is an observed fact).  Oracle: own
 enumeration of admissible splits (nested loops) and the law in exact rational arithmetic.
 """
+import math
+import numbers
 import random
 from fractions import Fraction
 from itertools import product
@@ -70,6 +72,12 @@ def build_config(rng):
         fkind = rng.choice(["table", "power_law"])
     if lo == 0 and fkind in ("power_law", "cutoff"):
         fkind = "poisson"
+    if T <= 3 and lo + width <= 100 and rng.random() < 0.12:
+        # degree functions that do exact INTEGER arithmetic on k (the library's own poisson with an int-typed mean computes
+        # mean**k; a caller's binomial computes comb(n, k) * a**k * b**(n-k) / (a+b)**n): values pass 2**63 inside the range
+        fkind = rng.choice(["poisson_int", "intbinomial"])
+        lo, width = rng.choice([0, 1, 2]), rng.randint(22, 36)
+        hi = lo + width
     if fkind.startswith("table"):
         tab = {k: rng.choice([0.5, 1.0, 2.0, 3.0, 0.25, rng.random() + 0.01]) for k in range(0, hi + 3)}
         if fkind == "table_zero":
@@ -84,6 +92,10 @@ def build_config(rng):
         fpar = [rng.choice([2.0, 2.5]), rng.choice([5.0, 20.0])]
     elif fkind == "poisson":
         fpar = [rng.choice([0.5, 2.0, 4.5])]
+    elif fkind == "poisson_int":
+        fpar = [rng.choice([9, 12, 20])]
+    elif fkind == "intbinomial":
+        fpar = [rng.choice([45, 60]), rng.choice([1, 2]), 3]
     else:
         fpar = [rng.choice([0.3, 1.0])]
     loader = rng.choice(["split", "delta"])
@@ -106,8 +118,11 @@ def make_fp(cfg, asked):
         base = gcmpy.power_law(*cfg["fpar"])
     elif k == "cutoff":
         base = gcmpy.scale_free_cut_off(*cfg["fpar"])
-    elif k == "poisson":
+    elif k in ("poisson", "poisson_int"):
         base = gcmpy.poisson(*cfg["fpar"])
+    elif k == "intbinomial":
+        n_, a_, b_ = cfg["fpar"]
+        base = lambda x: math.comb(n_, int(x)) * a_ ** x * b_ ** (n_ - x) / (a_ + b_) ** n_      # x itself (not int(x)) in the powers, as a caller would write it
     else:
         base = gcmpy.exponential(*cfg["fpar"])
 
@@ -156,13 +171,16 @@ def check_config(res, cfg):
         return False
     if any(p == 0.0 for p in probs):
         res.count("zero_prob_component")
+    if cfg["fkind"] in ("poisson_int", "intbinomial"):
+        res.count("integer_arithmetic_degree_functions")
     # ---- keys well formed
     deg = {}
     for key, val in jdd.items():
-        if not (isinstance(key, tuple) and len(key) == T and all(isinstance(x, int) and x >= 0 for x in key)):
+        if not (isinstance(key, tuple) and len(key) == T and all(isinstance(x, numbers.Integral) and not isinstance(x, bool) and x >= 0 for x in key)):
             res.violate("key-not-a-joint-degree", key=repr(key), cfg=cfg); return False
         if not (float(val) >= -1e-15):
             res.violate("negative-mass", key=key, value=val, cfg=cfg); return False
+        key = tuple(int(x) for x in key)          # numpy integers are integers: the harness's own arithmetic uses Python ints
         k = sum((i + 1) * x for i, x in enumerate(key))
         if not (lo <= k <= hi):
             res.violate("key-outside-degree-range", key=key, k=k, cfg=cfg); return False
